@@ -293,33 +293,79 @@ theorem aug_inline_decode_any_valid {Y : Type} (xdec : XDec Y) (zero : Y)
 
 /-! ## No silent corruption: arbitrary slices, colliding keys, the typed layer -/
 
-/-- Soundness of Marshal for ANY slice of `n`-bit keys, duplicates allowed (e.g. two typed keys outside their domain that
-truncate to the same bits): whenever Marshal succeeds the keys were pairwise distinct and Unmarshal returns exactly the
-given entries in ascending key-bit order. Colliding keys therefore make Marshal fail; they never overwrite or drop
-OTHER entries. -/
-theorem marshal_sound (C : Codec V) (pay : V → List Bool × List Cell) (n : Nat) (kvs : List (Key × V))
-    (hw : ∀ kv ∈ kvs, kv.1.length = n) (hfit : ∀ kv ∈ kvs, Fits C pay n kv.2) (c : Cell)
+/-- what a theorem about SUCCESSFUL encodings needs of the value codec: `enc` produces `pay v` and `dec` reads it back.
+No size condition: a value that does not fit makes Marshal fail, and failure is not a wrong tree. -/
+def Encodes (C : Codec V) (pay : V → List Bool × List Cell) (v : V) : Prop :=
+  C.enc v = .ok (pay v) ∧ DecodesValue C pay v
+
+/-- Soundness of `Hashmap.MarshalTLB` (the root goes into a fresh cell, as under `^`) for ANY non-empty slice of `n`-bit
+keys — any order, duplicates allowed, values of any size: whenever it succeeds, the keys were pairwise distinct, the
+root is an ordinary cell, and `Hashmap.UnmarshalTLB` of it returns exactly the given entries in ascending key-bit order.
+(This is the form the TL-B codec model applies to its `dict` / `dictE` nodes: keys as bit lists of the descriptor's key
+width, values through an arbitrary codec.) -/
+theorem marshal_unmarshal_sound (C : Codec V) (pay : V → List Bool × List Cell) (n : Nat) (hn : n < 2 ^ 64)
+    (kvs : List (Key × V)) (hne : kvs ≠ []) (hw : ∀ kv ∈ kvs, kv.1.length = n)
+    (henc : ∀ kv ∈ kvs, Encodes C pay kv.2) (root : Cell) (h : marshal C n kvs = .ok root) :
+    (keysOf kvs).Nodup ∧ SortedKV (sortKV kvs) ∧ root.ty = 0 ∧ unmarshal C n root = .ok (sortKV kvs) := by
+  have hp := sortKV_perm kvs
+  have hmax : maxKeyLen kvs = n := maxKeyLen_eq n _ hne hw
+  have hemp : kvs.isEmpty = false := by cases kvs <;> simp_all
+  simp only [marshal, hemp, Bool.false_eq_true, if_false, hmax] at h
+  have hws : ∀ kv ∈ sortKV kvs, kv.1.length = n := fun kv hkv => hw kv (hp.mem_iff.mp hkv)
+  have hs := encodeMap_ok_strict C (n + 1) n _ root hws (sortKV_weak n _ hw) h
+  obtain ⟨t, hv, hm, hc⟩ := encodeMap_ok_tree C pay (n + 1) n _ root hws hs
+    (fun kv hkv => (henc kv (hp.mem_iff.mp hkv)).1) h
+  have hdec : ∀ kv ∈ t.meaning, DecodesValue C pay kv.2 := by
+    rw [hm]; exact fun kv hkv => (henc kv (hp.mem_iff.mp hkv)).2
+  refine ⟨(hp.map Prod.fst).nodup (sortedBy_nodup lexLt lexLt_irrefl _ hs), hs, by rw [hc]; exact toCell_ty pay t n, ?_⟩
+  rw [hc]
+  unfold unmarshal
+  rw [toCell_ty]
+  have h0 : ¬ ((0 : Nat) = tyLibrary) := by decide
+  simp only [h0, if_false]
+  rw [mapInner_toCell C pay n hn t hdec n [] (n + 1) hv (by simp) (Nat.lt_succ_self n), hm]
+  simp
+
+/-- …and Marshal does succeed when the keys are distinct and every value fits (`Fits` is a sufficient size condition). -/
+theorem marshal_succeeds (C : Codec V) (pay : V → List Bool × List Cell) (n : Nat) (kvs : List (Key × V))
+    (hne : kvs ≠ []) (hnd : (keysOf kvs).Nodup) (hw : ∀ kv ∈ kvs, kv.1.length = n)
+    (hfit : ∀ kv ∈ kvs, Fits C pay n kv.2) : ∃ root, marshal C n kvs = .ok root := by
+  have hp := sortKV_perm kvs
+  have hwk : ∀ k ∈ keysOf kvs, k.length = n := by
+    intro k hk; obtain ⟨x, hx, rfl⟩ := List.mem_map.mp hk; exact hw x hx
+  have hne' : sortKV kvs ≠ [] := by
+    intro h; rw [h] at hp; exact hne (List.Perm.eq_nil hp.symm)
+  obtain ⟨t, _, _, he⟩ := encode_sorted_tree C pay n (sortKV kvs) hne'
+    (fun kv hkv => hw kv (hp.mem_iff.mp hkv)) (sortKV_sorted n kvs hnd hwk) (fun kv hkv => hfit kv (hp.mem_iff.mp hkv))
+  have hemp : kvs.isEmpty = false := by cases kvs <;> simp_all
+  exact ⟨_, by simp only [marshal, hemp, Bool.false_eq_true, if_false, maxKeyLen_eq n _ hne hw]; exact he⟩
+
+/-- Soundness of `HashmapE.MarshalTLB` for ANY slice of `n`-bit keys, duplicates allowed (e.g. two typed keys outside their
+domain that truncate to the same bits), values of any size: whenever Marshal succeeds the keys were pairwise distinct and
+Unmarshal returns exactly the given entries in ascending key-bit order. Colliding keys and oversized values therefore
+make Marshal fail; they never overwrite, drop or alter OTHER entries. -/
+theorem marshal_sound (C : Codec V) (pay : V → List Bool × List Cell) (n : Nat) (hn : n < 2 ^ 64) (kvs : List (Key × V))
+    (hw : ∀ kv ∈ kvs, kv.1.length = n) (henc : ∀ kv ∈ kvs, Encodes C pay kv.2) (c : Cell)
     (h : marshalE C n kvs = .ok c) :
-    (keysOf kvs).Nodup ∧ unmarshalE C n c = .ok (sortKV kvs) := by
-  have hnd : (keysOf kvs).Nodup := by
-    cases kvs with
-    | nil => simp [keysOf]
-    | cons x rest =>
-      have hmax : maxKeyLen (x :: rest) = n := maxKeyLen_eq n _ (by simp) hw
-      simp only [marshalE, marshal, List.isEmpty_cons, Bool.false_eq_true, if_false, hmax] at h
-      cases he : encodeMap C (n + 1) (sortKV (x :: rest)) (n : Int) with
-      | ok r =>
-        have hp := sortKV_perm (x :: rest)
-        have hs := encodeMap_ok_strict C (n + 1) n _ r (fun kv hkv => hw kv (hp.mem_iff.mp hkv))
-          (sortKV_weak n _ hw) he
-        exact (hp.map Prod.fst).nodup (sortedBy_nodup lexLt lexLt_irrefl _ hs)
-      | err e => rw [he] at h; cases h
-      | panic p => rw [he] at h; cases h
-  refine ⟨hnd, ?_⟩
-  obtain ⟨c', h1, h2, _⟩ := (hashmapE_roundtrip C pay n kvs hnd hw hfit).2
-  rw [h1] at h
-  cases h
-  exact h2
+    (keysOf kvs).Nodup ∧ SortedKV (sortKV kvs) ∧ unmarshalE C n c = .ok (sortKV kvs) := by
+  cases kvs with
+  | nil =>
+    simp only [marshalE, List.isEmpty_nil, if_true] at h
+    cases h
+    exact ⟨by simp [keysOf], by simp [sortKV, SortedKV], by simpa [sortKV] using decode_empty C n⟩
+  | cons x rest =>
+    simp only [marshalE, List.isEmpty_cons, Bool.false_eq_true, if_false] at h
+    cases hm : marshal C n (x :: rest) with
+    | ok root =>
+      rw [hm] at h
+      cases h
+      obtain ⟨h1, h2, h3, h4⟩ := marshal_unmarshal_sound C pay n hn (x :: rest) (by simp) hw henc root hm
+      refine ⟨h1, h2, ?_⟩
+      have h0 : ¬ ((0 : Nat) = tyLibrary) := by decide
+      have h1' : ¬ ((0 : Nat) = tyPruned) := by decide
+      simp only [unmarshalE, ty_ordinary, bits_ordinary, refs_ordinary, h0, if_false, h3, h1', h4]
+    | err e => rw [hm] at h; cases h
+    | panic p => rw [hm] at h; cases h
 
 /-- the typed layer, integer keys inside their domain: `WriteInt` writes the two's complement encoding the model uses -/
 theorem encIntKey_in_range (n : Nat) (v : Int) (hn : 2 ≤ n) (hlo : -(2 ^ (n - 1) : Int) ≤ v) (hhi : v < (2 ^ (n - 1) : Int)) :
